@@ -13,7 +13,15 @@ BIN="bin/vcheck.$$"
 trap 'rm -f "$BIN"' EXIT
 OVL="$(tools/overlay.sh "$VERIF_ROOT/.work/overlay.$$")"
 trap 'rm -f "$BIN"; rm -rf "$VERIF_ROOT/.work/overlay.$$"' EXIT
-if ! go build -tags verif -overlay "$OVL" -o "$BIN" ./cmd/vcheck 2> bin/build.$$.log; then
+MODFILE=""
+if [ -n "${VERIF_REPO:-}" ] && [ "$VERIF_REPO" != "/repo" ]; then
+  # developer convenience: check a scratch copy / worktree of ojg instead of /repo (never used by MANIFEST commands)
+  sed "s#=> /repo#=> $VERIF_REPO#" go.mod > "$VERIF_ROOT/.work/overlay.$$/alt.mod"
+  cp go.sum "$VERIF_ROOT/.work/overlay.$$/alt.sum" 2>/dev/null || true
+  MODFILE="-modfile=$VERIF_ROOT/.work/overlay.$$/alt.mod"
+  echo "NOTE: checking $VERIF_REPO instead of /repo" >&2
+fi
+if ! go build $MODFILE -tags verif -overlay "$OVL" -o "$BIN" ./cmd/vcheck 2> bin/build.$$.log; then
   cat bin/build.$$.log >&2; rm -f bin/build.$$.log
   echo "BUILD-FAILED property=$ID (the tree does not compile with -tags verif)" >&2
   exit 2
@@ -23,7 +31,7 @@ if [ "$ID" = "C08" ]; then
   # the free-running complement of C08 needs the race detector compiled in
   export VERIF_RACE_BIN="$VERIF_ROOT/bin/racepass.$$"
   trap 'rm -f "$BIN" "$VERIF_RACE_BIN"; rm -rf "$VERIF_ROOT/.work/overlay.$$"' EXIT
-  if ! go build -race -gcflags=all=-d=checkptr=0 -tags verif -overlay "$OVL" -o "$VERIF_RACE_BIN" ./cmd/racepass 2> bin/build.$$.log; then
+  if ! go build $MODFILE -race -gcflags=all=-d=checkptr=0 -tags verif -overlay "$OVL" -o "$VERIF_RACE_BIN" ./cmd/racepass 2> bin/build.$$.log; then
     cat bin/build.$$.log >&2; rm -f bin/build.$$.log
     echo "BUILD-FAILED property=$ID (race pass binary)" >&2
     exit 2
